@@ -234,7 +234,7 @@ def spec_monotonic(spec, excl) -> set:
     return out
 
 
-def check_barrier_part(spec, excl, cut, order, before, picks, ts_above, rep) -> tuple | None:
+def check_barrier_part(spec, excl, cut, order, before, picks, ts_above, rep, window=None) -> tuple | None:
     """clauses on the barrier picks `picks` made on top of the already chosen list `before`
     (empty for 'Barrier', the monotonic batch for 'Topographical')"""
     from topsearch.analysis import batch_selection as bs
@@ -242,7 +242,11 @@ def check_barrier_part(spec, excl, cut, order, before, picks, ts_above, rep) -> 
     ts_e = [t[2] for t in spec["ts"]]
     max_ts = max(ts_e) if ts_e else 1e5
     lo = min(E)
-    e_range = max(max(E), max_ts) - lo                    # the window the statement's "scan step" refers to
+    e_range = max(max(E), max_ts) - lo
+    if window is not None:
+        # the window the code really scanned (observed from outside at disconnected_height):
+        # "one scan step" of the statement is the step of that scan
+        max_ts, e_range = window
     step = e_range / 510
     tol = 1e-9 * max(1.0, abs(max_ts), abs(cut))
     chosen = list(before)
@@ -266,7 +270,7 @@ def check_barrier_part(spec, excl, cut, order, before, picks, ts_above, rep) -> 
                     return ("barrier:pair-below-cutoff", f"picks {j} and {i}: barrier {bar} below the cut-off "
                             f"{cut}", rep)
             chosen.append(i)
-        elif ts_above and step > 0:
+        elif ts_above and step >= 0:
             # not picked: it must fail to clear some earlier pick by more than one scan step
             if barriers and all(m is not None and bar > cut + step * (1 + 1e-9) + tol for j, m, bar in barriers) \
                     or not barriers:
@@ -291,6 +295,13 @@ def pred_select(spec, excl, size, scheme, fixed, bc, ts_above=True) -> tuple | N
            "bc": bc, "ts_above": ts_above}
     idx, pts = bs.select_batch(k, size, scheme, fixed, bc, list(excl))
     idx = [int(x) for x in idx]
+    # observe (from outside) the scan window the selector hands to disconnected_height
+    seen = []
+    real_height = bs.disconnected_height
+
+    def spy(ktn, a, b, max_ts_energy, e_range):
+        seen.append((float(max_ts_energy), float(e_range)))
+        return real_height(ktn, a, b, max_ts_energy, e_range)
     allowed = [i for i in range(n) if i not in ex]
     site = f"select_batch:{scheme}"
     if set(idx) & ex:
@@ -307,7 +318,12 @@ def pred_select(spec, excl, size, scheme, fixed, bc, ts_above=True) -> tuple | N
         return (site + ":coords", f"coordinates of batch {idx} are not those of the listed minima", rep)
     # the selector itself
     cut = bc * (max(E) - min(E))
-    gen = [int(x) for x in bs.generate_batch(build(spec), scheme, list(excl), cut)]
+    bs.disconnected_height = spy
+    try:
+        gen = [int(x) for x in bs.generate_batch(build(spec), scheme, list(excl), cut)]
+    finally:
+        bs.disconnected_height = real_height
+    window = seen[0] if seen and all(w == seen[0] for w in seen) else None
     order = [int(x) for x in mp.get_ordered_minima(k).tolist()]
     if set(gen) & ex or len(set(gen)) != len(gen):
         return (f"generate_batch:{scheme}:excluded-or-repeat", f"{gen}", rep)
@@ -320,14 +336,17 @@ def pred_select(spec, excl, size, scheme, fixed, bc, ts_above=True) -> tuple | N
         if set(gen) != want:
             return ("monotonic_batch_selector:set", f"returned {sorted(gen)}, the statement gives {sorted(want)}", rep)
     if scheme == "Barrier":
-        r = check_barrier_part(spec, excl, cut, order, [], gen, ts_above, rep)
+        r = check_barrier_part(spec, excl, cut, order, [], gen, ts_above, rep, window)
         if r:
             return r
     if scheme == "Topographical":
         mono = [int(x) for x in bs.monotonic_batch_selector(build(spec), list(excl))]
-        if gen[:len(mono)] != mono or set(mono) != want:
+        if gen[:len(mono)] != mono:
             return ("topographical_batch_selector:prefix", f"{gen} does not start with the monotonic batch {mono}", rep)
-        r = check_barrier_part(spec, excl, cut, order, mono, gen[len(mono):], ts_above, rep)
+        if set(mono) != want:
+            return ("topographical_batch_selector:monotonic-set", f"monotonic part {sorted(mono)}, the statement "
+                    f"gives {sorted(want)}", rep)
+        r = check_barrier_part(spec, excl, cut, order, mono, gen[len(mono):], ts_above, rep, window)
         if r:
             return (r[0].replace("barrier", "topographical-barrier", 1) if not r[0].startswith("barrier-omits")
                     else r[0], r[1], r[2])
